@@ -41,10 +41,13 @@ if [ $ok = 1 ]; then
   git -C /repo apply $src/patch.diff
   det=""
   : > $src/checks.txt
+  tmpd=$(mktemp -d /tmp/sck.XXXXXX)
+  seq -w 1 18 | xargs -P ${PAR:-6} -I{} sh -c '${BIN:-/verif/bin/cvsscheck} -prop C{} -repo /repo -verif /verif -no-evidence > '$tmpd'/C{}.out 2>&1; echo $? > '$tmpd'/C{}.rc'
   for i in $(seq -w 1 18); do
-    out=$(${BIN:-/verif/bin/cvsscheck} -prop C$i -repo /repo -verif /verif -no-evidence 2>&1); rc=$?
-    if [ $rc -ne 0 ]; then det="$det C$i"; echo "== C$i (exit $rc)" >> $src/checks.txt; echo "$out" | grep -v '^VIOLATION' | grep -E '\[R|\[floor|\[control|\[load|\[analyser' | cut -c1-400 | head -8 >> $src/checks.txt; fi
+    rc=$(cat $tmpd/C$i.rc)
+    if [ "$rc" != "0" ]; then det="$det C$i"; echo "== C$i (exit $rc)" >> $src/checks.txt; grep -v '^VIOLATION' $tmpd/C$i.out | grep -E '\[R|\[floor|\[control|\[load|\[analyser' | cut -c1-400 | head -8 >> $src/checks.txt; fi
   done
+  rm -rf $tmpd
   git -C /repo checkout -- .
   echo "detected_by=$det" >> $res
 fi
